@@ -358,8 +358,8 @@ func (g *Gen) KeywordCatalogue() []*Case {
 	var out []*Case
 	i := 0
 	for _, k := range KeywordFields {
-		for si := 0; si < 8; si++ {
-			slot := "kw-" + []string{"filter", "match", "vector-filter", "update-set", "insert", "match-nested", "after-search", "after-search-nested"}[si]
+		for si := 0; si < 9; si++ {
+			slot := "kw-" + []string{"filter", "match", "vector-filter", "update-set", "insert", "match-nested", "after-search", "after-search-nested", "search-like"}[si]
 			l := func() *Node { return g.LitClass("str", slot) }
 			db, coll := "db"+g.letters(5), "coll"+g.letters(5)
 			var cmd *Node
@@ -382,6 +382,13 @@ func (g *Gen) KeywordCatalogue() []*Case {
 				cmd = cmdTail(ObjN("insert", collN(coll), "documents", ArrN(ObjN(k, l(), "sub", ObjN(k, ArrN(l())))), "ordered", keep(BoolN(true))), db)
 			case 5:
 				cmd = cmdTail(ObjN("aggregate", collN(coll), "pipeline", ArrN(ObjN("$match", ObjN("doc", ObjN(k, l()))), ObjN("$addFields", ObjN(k, l()))), "cursor", keep(ObjN())), db)
+			case 8:
+				// moreLikeThis.like holds USER documents (one, or a list): their keys are field names
+				like := ObjN(k, l(), "title", l(), "sub", ObjN(k, l()))
+				if i%2 == 1 {
+					like = ArrN(ObjN(k, l()), ObjN("title", l(), k, ArrN(l())))
+				}
+				cmd = cmdTail(ObjN("aggregate", collN(coll), "pipeline", ArrN(ObjN("$search", ObjN("index", KeepS("s_kw"), "moreLikeThis", ObjN("like", like)))), "cursor", keep(ObjN())), db)
 			case 6, 7:
 				// ordinary stages AFTER a leading search stage: their user fields are user fields, whatever
 				// they are called (a keyword holding a document whose member is a keyword again: text.path, range.gt …)
@@ -434,7 +441,7 @@ func (g *Gen) SearchCatalogue(paths []string) []*Case {
 		}},
 		{"regex", func(p string) *Node { return ObjN("regex", ObjN("query", l("str", "regex"), "path", P(p))) }},
 		{"equals", func(p string) *Node {
-			return ObjN("equals", ObjN("path", P(p), "value", l(g.pick("str", "num", "oid", "date", "bool"), "equals")))
+			return ObjN("equals", ObjN("path", P(p), "value", l(g.pick("str", "num", "oid", "date", "bool", "b64", "b64", "email"), "equals")))
 		}},
 		{"in", func(p string) *Node {
 			return ObjN("in", ObjN("path", P(p), "value", ArrN(l("str", "in"), l("num", "in"))))
@@ -472,7 +479,7 @@ func (g *Gen) SearchCatalogue(paths []string) []*Case {
 	i := 0
 	for _, op := range ops {
 		for _, p := range paths {
-			for w := 0; w < 4; w++ {
+			for w := 0; w < 7; w++ {
 				o := op.mk(p)
 				st := ObjN("index", KeepS("idx_scat"))
 				switch w {
@@ -484,6 +491,14 @@ func (g *Gen) SearchCatalogue(paths []string) []*Case {
 					st.Set("compound", ObjN("filter", ArrN(o), "should", ArrN(op.mk(p)), "minimumShouldMatch", FreeI(0)))
 				case 3:
 					st.Set("embeddedDocument", ObjN("path", FreeS("items"), "operator", ObjN("compound", ObjN("mustNot", ArrN(o)))))
+				case 4:
+					// the operator directly below embeddedDocument.operator (no compound in between)
+					st.Set("embeddedDocument", ObjN("path", FreeS("items"), "operator", o, "score", ObjN("embedded", ObjN("aggregate", FreeS("mean")))))
+				case 5:
+					// compound clauses given as a single document instead of a one-element array
+					st.Set("compound", ObjN("must", o, "should", op.mk(p), "mustNot", op.mk(p)))
+				case 6:
+					st.Set("facet", ObjN("operator", o, "facets", ObjN("f1", ObjN("type", FreeS("string"), "path", FreeS(p), "numBuckets", FreeI(4)))))
 				}
 				db, coll := "db"+g.letters(5), "coll"+g.letters(5)
 				cmd := cmdTail(ObjN("aggregate", collN(coll), "pipeline", ArrN(ObjN(g.pick("$search", "$searchMeta"), st), ObjN("$limit", KeepI(5))), "cursor", keep(ObjN())), db)
